@@ -86,6 +86,17 @@ pub enum Op {
     Handover(u16),
     /// Drop every handle (RocksDB: closes the database; reopened from the same directory).
     ReopenAll,
+    /// Drop the node store of an agent and leave the agent stopped (no read follows).
+    Stop(u16),
+    /// Call `node_store(uri)` and keep the returned future without polling it, whatever the state of
+    /// the agent (running: this is what the server does on every route resolution, see NOTES.md).
+    Request(u16),
+    /// Drop one of the outstanding `node_store` futures of the agent (agent, which).
+    Abandon(u16, u16),
+    /// Poll one of the outstanding `node_store` futures of the agent (agent, which). If it yields a
+    /// second handle while one is in use, both are used and then either the old (true) or the new
+    /// (false) one is dropped.
+    Resolve(u16, u16, bool),
 }
 
 #[derive(Clone, Debug, Serialize, Deserialize)]
@@ -342,7 +353,7 @@ fn arb_agents(max_items: usize) -> impl Strategy<Value = Vec<AgentDef>> {
     ]
 }
 
-fn arb_op(reopen_weight: u32) -> impl Strategy<Value = Op> {
+fn arb_op(reopen_weight: u32, lifecycle_weight: u32) -> impl Strategy<Value = Op> {
     prop_oneof![
         2 => any::<u16>().prop_map(Op::Id),
         9 => (any::<u16>(), arb_key(), arb_val()).prop_map(|(i, k, v)| Op::Write(i, k, v)),
@@ -352,6 +363,10 @@ fn arb_op(reopen_weight: u32) -> impl Strategy<Value = Op> {
         reopen_weight => any::<u16>().prop_map(Op::ReopenNode),
         reopen_weight => any::<u16>().prop_map(Op::Handover),
         reopen_weight => Just(Op::ReopenAll),
+        lifecycle_weight => any::<u16>().prop_map(Op::Stop),
+        2 * lifecycle_weight => any::<u16>().prop_map(Op::Request),
+        2 * lifecycle_weight => (any::<u16>(), any::<u16>()).prop_map(|(a, w)| Op::Abandon(a, w)),
+        lifecycle_weight => (any::<u16>(), any::<u16>(), any::<bool>()).prop_map(|(a, w, n)| Op::Resolve(a, w, n)),
     ]
 }
 
@@ -364,7 +379,7 @@ fn arb_prealloc() -> impl Strategy<Value = u16> {
 
 /// Histories for the model-based sub-checks (1-3 agents x 1-4 items).
 pub fn arb_case() -> impl Strategy<Value = Case> {
-    (arb_agents(4), arb_prealloc(), proptest::collection::vec(arb_op(1), 1..48))
+    (arb_agents(4), arb_prealloc(), proptest::collection::vec(arb_op(1, 1), 1..48))
         .prop_map(|(agents, prealloc, ops)| Case { agents, prealloc, ops })
 }
 
@@ -373,7 +388,7 @@ pub fn arb_case() -> impl Strategy<Value = Case> {
 /// ReopenNode for RocksDB).
 pub fn arb_kill_history() -> impl Strategy<Value = Case> {
     let op = prop_oneof![
-        12 => arb_op(1),
+        12 => arb_op(1, 0),
         1 => any::<u16>().prop_map(Op::Id),
     ];
     (arb_agents(6), proptest::collection::vec(op, 4..60)).prop_map(|(agents, ops)| Case { agents, prealloc: 0, ops })
